@@ -77,7 +77,8 @@ def cases(rng, tier):
     nsmall = 2 if tier == "quick" else 6
     extra = [0x85, 0xa0, 0x2028, 0x3000, 0xdf, 0x131, 0xe9, 0x3a9, 0x1f600]
     for f in small[:nsmall]:
-        yield fcase(f, "small-file", analyses=True)
+        # (an object built from a file without residues has an empty sequence: outside the property's quantifier)
+        yield fcase(f, "small-file", analyses=any(c.isalpha() for l in f.replace("\r", "\n").split("\n") if not l.strip().startswith(">") for c in l))
         for pos in range(len(f) + 1):
             for cp in list(range(0, 128)) + extra:
                 ch = chr(cp)
